@@ -58,6 +58,49 @@ impl Cl {
     }
 }
 
+// Synchronise every connection until nothing new arrives.  The per-connection select! of the
+// server picks at random between its queue of relayed messages and its socket, so a SYNC line
+// can overtake relays that are already queued: one barrier is not enough.  Rounds (each: SYNC to
+// every connection, read up to its 421) are repeated, 10 ms apart, until `quiet_needed`
+// consecutive rounds brought no line at all.
+async fn quiesce(
+    clients: &mut BTreeMap<usize, Cl>,
+    seqno: usize,
+    sync_no: &mut usize,
+    outs: &mut BTreeMap<usize, Vec<String>>,
+    quiet_needed: usize,
+) {
+    let mut quiet = 0;
+    let mut round = 0;
+    let mut stalled = false;
+    while round < 2 || (quiet < quiet_needed && round < 80 && !stalled) {
+        if round >= 1 {
+            tokio::time::sleep(Duration::from_millis(10)).await;
+        }
+        round += 1;
+        let mut fresh = 0usize;
+        for (c, cl) in clients.iter_mut() {
+            *sync_no += 1;
+            let tok = format!("SYNC{}X{}", seqno, *sync_no);
+            if !cl.eof {
+                cl.stream.write_all(format!("{}\r\n", tok).as_bytes()).await.ok();
+            }
+            let v = outs.entry(*c).or_default();
+            let before = v.len();
+            cl.read_until(&format!(" {} ", tok), v).await;
+            fresh += v.len() - before;
+            if v.last().map(|x| x == "<<timeout>>").unwrap_or(false) {
+                stalled = true; // do not wait another 80 x 15 s
+            }
+        }
+        if fresh == 0 {
+            quiet += 1;
+        } else {
+            quiet = 0;
+        }
+    }
+}
+
 async fn run_seq<W: Write>(mut cfg: MainConfig, ops: &[&str], out: &mut W, seqno: usize) {
     // pick a free port
     let port = {
@@ -117,12 +160,10 @@ async fn run_seq<W: Write>(mut cfg: MainConfig, ops: &[&str], out: &mut W, seqno
             }
             "endburst" => {
                 // state after set-up (give relays of the set-up phase a moment: sync everyone)
-                for (_, cl) in clients.iter_mut() {
-                    sync_no += 1;
-                    let tok = format!("SYNC{}X{}", seqno, sync_no);
-                    cl.stream.write_all(format!("{}\r\n", tok).as_bytes()).await.ok();
-                    let mut sink = vec![];
-                    cl.read_until(&format!(" {} ", tok), &mut sink).await;
+                let mut sink: BTreeMap<usize, Vec<String>> = BTreeMap::new();
+                quiesce(&mut clients, seqno, &mut sync_no, &mut sink, 4).await;
+                if sink.values().any(|v| v.iter().any(|x| x == "<<timeout>>")) {
+                    writeln!(out, "ev setup-sync-timeout").unwrap();
                 }
                 let d0 = ms.verif_dump().await;
                 writeln!(out, "setupstate").unwrap();
@@ -153,17 +194,7 @@ async fn run_seq<W: Write>(mut cfg: MainConfig, ops: &[&str], out: &mut W, seqno
                 }
                 // two synchronisation rounds over every connection, collecting what arrived
                 let mut outs: BTreeMap<usize, Vec<String>> = BTreeMap::new();
-                for _round in 0..2 {
-                    for (c, cl) in clients.iter_mut() {
-                        sync_no += 1;
-                        let tok = format!("SYNC{}X{}", seqno, sync_no);
-                        if !cl.eof {
-                            cl.stream.write_all(format!("{}\r\n", tok).as_bytes()).await.ok();
-                        }
-                        let v = outs.entry(*c).or_default();
-                        cl.read_until(&format!(" {} ", tok), v).await;
-                    }
-                }
+                quiesce(&mut clients, seqno, &mut sync_no, &mut outs, 6).await;
                 for (c, ls) in outs {
                     for l in ls {
                         writeln!(out, "burstout {} {}", c, esc(&l)).unwrap();
